@@ -1,11 +1,12 @@
 \* name and metadata: registrations fixing the name / extra metadata against metadata variants
 SPECIFICATION MCSpec
-CONSTANTS AlreadyChecked = TRUE PkPerAuthority = TRUE CheckSubject = TRUE CheckPermission = TRUE Window = 300 RespCap = 10 FitAll = 8
+CONSTANTS AlreadyChecked = TRUE PkPerAuthority = TRUE CheckSubject = TRUE CheckPermission = TRUE CommitBeforeSend = TRUE Window = 300 RespCap = 10 FitAll = 8
   Regs = {1, 4, 5, 7} Senders = {1} TokIdx = {2} MdIdx = {2, 3, 4, 8, 9, 12} AttIdx = {1} MissIdx = {}
-  Ticks = {} OwnerPeers = {} KnownVals = {} AttSend = {} RegFirst = FALSE
-  MaxReg = 2 MaxMsg = 2 MaxTick = 0 MaxOwn = 0
+  Ticks = {} OwnerPeers = {} KnownVals = {} AttSend = {} RegFirst = FALSE FaultTabs = {}
+  MaxReg = 2 MaxMsg = 2 MaxTick = 0 MaxOwn = 0 MaxFault = 0
 INVARIANT TypeOK
 INVARIANT SignsOnlyConsented
 INVARIANT StoresOnlyValidlySigned
 INVARIANT TokensOnlyUpToPermitted
 INVARIANT TreesVerified
+INVARIANT SentOnlyRecorded
